@@ -15,7 +15,8 @@
      hold content, and may fail at one chosen storage operation ([fa]);
    - time.Now().UTC().Format(RFC3339) is the parameter [now];
      the validation of a caller-supplied created value is the recogniser [rfc3339_ok]
-     (mirrors time.parseStrictRFC3339 step by step). *)
+     = time.Parse(time.RFC3339, _) (lenient mirror [rfc3339_gen false]) and the explicit
+     checks of validateRFC3339 translated from pack.go on every run. *)
 From Oras Require Import Base.Prelude Base.Regex Base.StrCheck Generated.GC19.
 
 Definition kv := (str * str)%type.
@@ -97,11 +98,14 @@ Definition lit (c : N) (s : str) : option str :=
 Fixpoint skip_digits (s : str) : str :=
   match s with c :: r => if is_digit c then skip_digits r else s | [] => [] end.
 
-(* The validation of the created annotation.
-   [strict = true]: time.Time.UnmarshalText, i.e. time.parseStrictRFC3339 (what
-   ensureAnnotationCreated calls since the fix recorded in known_findings.d/C19.json).
-   [strict = false]: time.Parse(time.RFC3339, _), the pre-fix call, which additionally takes
-   a one-digit hour, a comma before the fraction and zone offsets up to 24:60. *)
+(* Two recognisers, structurally.
+   [strict = false]: time.Parse(time.RFC3339, _) -- mirrors time.parse of go1.26.8 for that layout
+   (4-digit year, 2-digit fields except a 1-or-2-digit hour, fraction after '.' or ',', "Z" or
+   +hh:mm with hh <= 24 and mm <= 60, nothing after it, day-of-month check); compared with the real
+   time.Parse on every run (case kind L).
+   [strict = true]: the same with a two-digit hour, '.' only and offsets <= 23:59.  The model of
+   validateRFC3339 ([rfc3339_ok] below) is NOT this function: it is the lenient recogniser plus the
+   checks translated from pack.go; Proofs/PackTime.v proves the two equal. *)
 
 Definition is_nil (s : str) : bool := match s with [] => true | _ => false end.
 
@@ -173,14 +177,64 @@ Definition ensure_created (ann : list kv) (key now : str) : option (list kv) :=
   | None => Some (ann ++ [(key, now)])
   end.
 
+(* ---------- what encoding/json does to strings ---------- *)
+(* json.Marshal coerces a Go string to valid UTF-8: every byte that does not start a well-formed
+   UTF-8 sequence (utf8.DecodeRuneInString = RuneError, size 1) is replaced by U+FFFD.  So the
+   document that can be read back from the stored bytes is [san_manifest m], not [m]. *)
+Definition in_rng (lo hi c : N) : bool := (lo <=? c) && (c <=? hi).
+Definition utf8_cont (c : N) : bool := in_rng 128 191 c.
+Definition utf8_three (b0 b1 : N) : bool :=
+  ((b0 =? 224) && in_rng 160 191 b1) || (in_rng 225 236 b0 && utf8_cont b1) ||
+  ((b0 =? 237) && in_rng 128 159 b1) || (in_rng 238 239 b0 && utf8_cont b1).
+Definition utf8_four (b0 b1 : N) : bool :=
+  ((b0 =? 240) && in_rng 144 191 b1) || (in_rng 241 243 b0 && utf8_cont b1) ||
+  ((b0 =? 244) && in_rng 128 143 b1).
+Definition ufffd : str := [239; 191; 189].
+
+Fixpoint utf8_san (s : str) : str :=
+  match s with
+  | [] => []
+  | b0 :: r1 =>
+    if b0 <? 128 then b0 :: utf8_san r1
+    else
+      match r1 with
+      | [] => ufffd
+      | b1 :: r2 =>
+        if in_rng 194 223 b0 && utf8_cont b1 then b0 :: b1 :: utf8_san r2
+        else
+          match r2 with
+          | [] => ufffd ++ utf8_san r1
+          | b2 :: r3 =>
+            if utf8_three b0 b1 && utf8_cont b2 then b0 :: b1 :: b2 :: utf8_san r3
+            else
+              match r3 with
+              | [] => ufffd ++ utf8_san r1
+              | b3 :: r4 =>
+                if utf8_four b0 b1 && utf8_cont b2 && utf8_cont b3
+                then b0 :: b1 :: b2 :: b3 :: utf8_san r4
+                else ufffd ++ utf8_san r1
+              end
+          end
+      end
+  end.
+
+Definition san_ann (l : list kv) : list kv := map (fun p => (utf8_san (fst p), utf8_san (snd p))) l.
+(* [d_extra] stands for JSON text of urls / data / platform and is left alone *)
+Definition san_desc (d : desc) : desc :=
+  mkDesc (utf8_san (d_mt d)) (utf8_san (d_dg d)) (d_sz d) (san_ann (d_ann d)) (utf8_san (d_at d)) (d_extra d).
+Definition san_manifest (m : manifest) : manifest :=
+  mkManifest (m_kind m) (option_map san_desc (m_config m)) (option_map (map san_desc) (m_layers m))
+             (option_map san_desc (m_subject m)) (utf8_san (m_at m)) (san_ann (m_ann m)).
+
 (* ---------- the target ---------- *)
 (* how a target decides that two descriptors name the same content *)
 Inductive keykind :=
 | KFull        (* media type + digest + size: memory store, fallback of the file store *)
 | KDigest      (* digest only: OCI layout *)
 | KNamespace   (* digest within the manifest / blob namespace: a registry repository *)
-| KFile.       (* file store: named files are found by digest; unnamed content lives in a fallback
-                  memory store keyed by media type + digest + size *)
+| KFile.       (* file store (file.New defaults): a descriptor with a title annotation is a named file,
+                  found by digest once its name is taken, refused when the name is taken at Push;
+                  unnamed content lives in a fallback memory store keyed by media type + digest + size *)
 
 Record tcfg := mkTcfg {
   t_exists : bool;     (* the pusher also implements content.ReadOnlyStorage *)
@@ -197,7 +251,8 @@ Definition manifest_media_types : list str :=
 
 Definition is_manifest_mt (mt : str) : bool := existsb (str_eqb mt) manifest_media_types.
 
-Record entry := mkEntry { e_mt : str; e_dg : str; e_sz : Z; e_bytes : str; e_named : bool }.
+(* [e_name]: the file name under which a file store holds the content ([] = unnamed / other targets) *)
+Record entry := mkEntry { e_mt : str; e_dg : str; e_sz : Z; e_bytes : str; e_name : str }.
 
 Inductive role := RBlob | RManifest.
 Inductive event :=
@@ -213,25 +268,43 @@ Record state := mkState {
 Definition full_key (d : desc) (e : entry) : bool :=
   str_eqb (d_mt d) (e_mt e) && (d_sz d =? e_sz e)%Z.
 
-(* Exists: does entry e answer for descriptor d (descriptors without a title annotation) *)
+(* content/file: a descriptor with the title annotation is a named file *)
+Definition AnnotationTitle : str := b "org.opencontainers.image.title".
+Definition title (d : desc) : str :=
+  match ann_get AnnotationTitle (d_ann d) with Some n => n | None => [] end.
+Definition is_named (e : entry) : bool := negb (is_nil (e_name e)).
+Definition name_exists (st : list entry) (n : str) : bool := existsb (fun e => str_eqb (e_name e) n) st.
+Definition entry_name (k : keykind) (d : desc) : str := match k with KFile => title d | _ => [] end.
+
+(* does entry e hold the content descriptor d asks for *)
 Definition same_key (k : keykind) (d : desc) (e : entry) : bool :=
   str_eqb (d_dg d) (e_dg e) &&
   match k with
   | KDigest => true
   | KFull => full_key d e
   | KNamespace => Bool.eqb (is_manifest_mt (d_mt d)) (is_manifest_mt (e_mt e))
-  | KFile => if e_named e then true else full_key d e
+  | KFile => if is_named e then true else full_key d e
   end.
 
-(* Push: does entry e make the push of d answer ErrAlreadyExists *)
+(* file.Store.Exists / Fetch: a titled descriptor is looked up only when its name is taken *)
+Definition name_ok (k : keykind) (st : list entry) (d : desc) : bool :=
+  match k with KFile => is_nil (title d) || name_exists st (title d) | _ => true end.
+
+(* Exists *)
+Definition stored (k : keykind) (st : list entry) (d : desc) : bool :=
+  name_ok k st d && existsb (same_key k d) st.
+
+(* Push answers ErrAlreadyExists (file store: only its unnamed fallback does) *)
 Definition push_key (k : keykind) (d : desc) (e : entry) : bool :=
   match k with
-  | KFile => negb (e_named e) && same_key k d e
+  | KFile => negb (is_named e) && same_key k d e
   | _ => same_key k d e
   end.
-
-Definition stored (k : keykind) (st : list entry) (d : desc) : bool := existsb (same_key k d) st.
 Definition push_dup (k : keykind) (st : list entry) (d : desc) : bool := existsb (push_key k d) st.
+
+(* Push fails for good: file.ErrDuplicateName, the name of a titled descriptor is taken *)
+Definition push_refused (k : keykind) (st : list entry) (d : desc) : bool :=
+  match k with KFile => negb (is_nil (title d)) && name_exists st (title d) | _ => false end.
 
 Definition faulty (fa : option nat) (s : state) : bool :=
   match fa with Some k => Nat.eqb k (s_ops s) | None => false end.
@@ -245,13 +318,17 @@ Definition do_exists (tc : tcfg) (fa : option nat) (s : state) (d : desc) : stat
   if faulty fa s then (s', None)
   else (s', Some (stored (t_key tc) (s_store s) d)).
 
-(* Push: false = injected error; ErrAlreadyExists is success for every caller in pack.go *)
+(* Push: false = the storage operation failed (injected fault, or the target refused: duplicate
+   name); ErrAlreadyExists is success for every caller in pack.go.  A titled descriptor goes to a
+   file store as a named file without consulting the fallback. *)
 Definition do_push (tc : tcfg) (fa : option nat) (s : state) (r : role) (d : desc) (bytes : str)
   : state * bool :=
   let s' := tick s (EvPush r d bytes) in
+  let k := t_key tc in
   if faulty fa s then (s', false)
-  else if push_dup (t_key tc) (s_store s) d then (s', true)
-  else (mkState (s_store s ++ [mkEntry (d_mt d) (d_dg d) (d_sz d) bytes false]) (s_ops s') (s_events s'), true).
+  else if push_refused k (s_store s) d then (s', false)
+  else if is_nil (entry_name k d) && push_dup k (s_store s) d then (s', true)
+  else (mkState (s_store s ++ [mkEntry (d_mt d) (d_dg d) (d_sz d) bytes (entry_name k d)]) (s_ops s') (s_events s'), true).
 
 (* pushIfNotExist *)
 Definition push_if_not_exist (tc : tcfg) (fa : option nat) (s : state) (d : desc) (bytes : str)
